@@ -31,7 +31,7 @@ extern int   g_rejects;               /* number of candidates whose guard reject
 
 /* one candidate row (its own units: rows_back.spec.h / rows_mp11.spec.h) seen from the chain */
 HandledEnum row_execute(type_t row, fsm_t* fsm, int region_index, int state, event_t evt)
-__CPROVER_requires(row == g_chain_pos && 0 <= row && row < g_n)                 /*@ob C01.candidates-tried-in-priority-order-each-once */
+__CPROVER_requires(row == g_chain_pos && 0 <= row && row < g_n)                 /*@ob C01,C02.candidates-tried-in-priority-order-each-once */
 __CPROVER_requires(!g_consumed)                                                  /*@ob C01,C07.no-candidate-after-consumption */
 __CPROVER_requires(g_taken < 1000000 && g_rejects < 1000000)
 __CPROVER_assigns(g_chain_pos, g_consumed, g_taken, g_rejects)
@@ -50,9 +50,9 @@ __CPROVER_requires(0 <= Sequence && Sequence <= g_n && g_n <= 1000000 && g_chain
 __CPROVER_requires(!g_consumed)                                                  /*@ob C01,C07.no-candidate-after-consumption */
 __CPROVER_requires(0 <= g_taken && g_taken <= Sequence && 0 <= g_rejects && g_rejects <= Sequence)
 __CPROVER_assigns(g_chain_pos, g_consumed, g_taken, g_rejects)
-__CPROVER_ensures(g_consumed == CONSUMED(__CPROVER_return_value))                                                          /*@ob C01.result-says-consumed-iff-consumed */
-__CPROVER_ensures(((((int)__CPROVER_return_value) & HANDLED_TRUE) != 0) == (g_taken > __CPROVER_old(g_taken)))            /*@ob C06.handled-bit-iff-a-transition-was-taken */
-__CPROVER_ensures(g_taken <= __CPROVER_old(g_taken)+1)                                                                     /*@ob C01.at-most-one-candidate-taken */
+__CPROVER_ensures(g_consumed == CONSUMED(__CPROVER_return_value))                                                          /*@ob C01,C06,C07.result-says-consumed-iff-consumed */
+__CPROVER_ensures(((((int)__CPROVER_return_value) & HANDLED_TRUE) != 0) == (g_taken > __CPROVER_old(g_taken)))            /*@ob C06,C01.handled-bit-iff-a-transition-was-taken */
+__CPROVER_ensures(g_taken <= __CPROVER_old(g_taken)+1)                                                                     /*@ob C01,C02.at-most-one-candidate-taken */
 __CPROVER_ensures(g_taken >= __CPROVER_old(g_taken) && g_rejects >= __CPROVER_old(g_rejects) && g_chain_pos >= __CPROVER_old(g_chain_pos) && g_chain_pos <= g_n)
 __CPROVER_ensures(!g_consumed ==> g_chain_pos == g_n)                                                                      /*@ob C01.all-candidates-tried-if-none-consumed */
 __CPROVER_ensures(!g_consumed ==> (__CPROVER_return_value == ((g_rejects > __CPROVER_old(g_rejects)) ? HANDLED_GUARD_REJECT : HANDLED_FALSE)))  /*@ob C06.reject-reported-iff-some-guard-rejected */
@@ -63,9 +63,9 @@ __CPROVER_ensures(0 <= (int)__CPROVER_return_value && (int)__CPROVER_return_valu
 HandledEnum chain_entry(fsm_t* fsm, int region_index, int state, event_t evt)
 __CPROVER_requires(0 <= g_n && g_n <= 1000000 && g_chain_pos == 0 && !g_consumed && g_taken == 0 && g_rejects == 0)
 __CPROVER_assigns(g_chain_pos, g_consumed, g_taken, g_rejects)
-__CPROVER_ensures(g_consumed == CONSUMED(__CPROVER_return_value))                                                          /*@ob C01.result-says-consumed-iff-consumed */
-__CPROVER_ensures(((((int)__CPROVER_return_value) & HANDLED_TRUE) != 0) == (g_taken > __CPROVER_old(g_taken)))            /*@ob C06.handled-bit-iff-a-transition-was-taken */
-__CPROVER_ensures(g_taken <= __CPROVER_old(g_taken)+1)                                                                     /*@ob C01.at-most-one-candidate-taken */
+__CPROVER_ensures(g_consumed == CONSUMED(__CPROVER_return_value))                                                          /*@ob C01,C06,C07.result-says-consumed-iff-consumed */
+__CPROVER_ensures(((((int)__CPROVER_return_value) & HANDLED_TRUE) != 0) == (g_taken > __CPROVER_old(g_taken)))            /*@ob C06,C01.handled-bit-iff-a-transition-was-taken */
+__CPROVER_ensures(g_taken <= __CPROVER_old(g_taken)+1)                                                                     /*@ob C01,C02.at-most-one-candidate-taken */
 __CPROVER_ensures(g_taken >= __CPROVER_old(g_taken) && g_rejects >= __CPROVER_old(g_rejects) && g_chain_pos >= __CPROVER_old(g_chain_pos) && g_chain_pos <= g_n)
 __CPROVER_ensures(!g_consumed ==> g_chain_pos == g_n)                                                                      /*@ob C01.all-candidates-tried-if-none-consumed */
 __CPROVER_ensures(!g_consumed ==> (__CPROVER_return_value == ((g_rejects > __CPROVER_old(g_rejects)) ? HANDLED_GUARD_REJECT : HANDLED_FALSE)))  /*@ob C06.reject-reported-iff-some-guard-rejected */
@@ -88,7 +88,7 @@ extern const _Bool g_is_event_processable;   /* mpl::has_key<processable_events_
 
 /* table::instance().entries[i](fsm, region, state, evt)  -- the cell is a chain (contract above, seen from outside) */
 HandledEnum entries_call(int index, fsm_t* fsm, int region, int state, event_t evt)
-__CPROVER_requires(region == g_region_next && 0 <= region && region < nr_regions)           /*@ob C06.every-region-once-in-declaration-order */
+__CPROVER_requires(region == g_region_next && 0 <= region && region < nr_regions)           /*@ob C06,C01.every-region-once-in-declaration-order */
 __CPROVER_requires(state == fsm->m_states[region] && index == fsm->m_states[region] + 1)    /*@ob C06,C07.only-the-active-states-cell */
 __CPROVER_requires(ACC_INV)
 __CPROVER_assigns(g_region_next, g_acc, g_ntaken, fsm->m_states[region])      /* a row assigns only its own region's entry (frame proved in the row units) */
@@ -103,7 +103,7 @@ __CPROVER_ensures(g_ntaken == __CPROVER_old(g_ntaken) + ((((int)__CPROVER_return
 HandledEnum internal_entries_call(int index, fsm_t* fsm, int region, int state, event_t evt)
 __CPROVER_requires(index == 0)
 __CPROVER_requires(g_region_next == nr_regions)                                              /*@ob C01.sm-internal-table-after-all-regions */
-__CPROVER_requires(!CONSUMED(g_acc))                                                         /*@ob C01.sm-internal-table-only-if-not-consumed */
+__CPROVER_requires(!CONSUMED(g_acc))                                                         /*@ob C01,C07.sm-internal-table-only-if-not-consumed */
 __CPROVER_requires(!g_internal_tried && ACC_INV)
 __CPROVER_assigns(g_internal_tried, g_acc, g_ntaken)
 __CPROVER_ensures(g_internal_tried == 1)
@@ -138,7 +138,7 @@ __CPROVER_requires(1 <= nr_regions && nr_regions <= NR_CAP && 0 <= region_id && 
 __CPROVER_requires((int)*result_ == g_acc && ACC_INV && !g_internal_tried && WF_STATES(self_))
 __CPROVER_assigns(*result_, g_region_next, g_acc, g_ntaken, g_internal_tried, __CPROVER_object_whole(self_->m_states))
 __CPROVER_ensures(g_region_next == nr_regions)                                                       /*@ob C06.every-region-was-offered-the-event */
-__CPROVER_ensures((int)*result_ == g_acc && ACC_INV)                                /*@ob C06.result-is-the-or-of-the-regions */
+__CPROVER_ensures((int)*result_ == g_acc && ACC_INV)                                /*@ob C06,C07.result-is-the-or-of-the-regions */
 __CPROVER_ensures(g_internal_tried ==> g_is_event_processable)
 ;
 
@@ -149,13 +149,13 @@ __CPROVER_requires(1 <= nr_regions && nr_regions <= NR_CAP && g_region_next == 0
 __CPROVER_requires(*result == HANDLED_FALSE && g_acc == 0 && !g_internal_tried && g_ntaken == 0 && WF_STATES(self))
 __CPROVER_assigns(*result, g_region_next, g_acc, g_ntaken, g_internal_tried, __CPROVER_object_whole(self->m_states))
 __CPROVER_ensures(g_region_next == nr_regions)                                                       /*@ob C06.every-region-was-offered-the-event */
-__CPROVER_ensures((int)*result == g_acc && ACC_INV)                                 /*@ob C06.result-is-the-or-of-the-regions */
-__CPROVER_ensures(((g_acc & HANDLED_TRUE) != 0) == (g_ntaken > 0))                                   /*@ob C06.handled-bit-iff-a-transition-was-taken */
+__CPROVER_ensures((int)*result == g_acc && ACC_INV)                                 /*@ob C06,C07.result-is-the-or-of-the-regions */
+__CPROVER_ensures(((g_acc & HANDLED_TRUE) != 0) == (g_ntaken > 0))                                   /*@ob C06,C01.handled-bit-iff-a-transition-was-taken */
 ;
 
 /* no_transition(evt, fsm, state) -- user callback */
 void no_transition(fsm_t* self, event_t evt, fsm_t* fsm, int state)
-__CPROVER_requires(g_acc == 0)                                                                       /*@ob C06.no-transition-only-if-nothing-reacted */
+__CPROVER_requires(g_acc == 0)                                                                       /*@ob C06,C05.no-transition-only-if-nothing-reacted */
 __CPROVER_requires(!g_is_completion_event)                                                           /*@ob C06,C10.no-transition-never-for-completion-events */
 __CPROVER_requires(0 <= g_nt_next && g_nt_next < nr_regions && state == self->m_states[g_nt_next])   /*@ob C06.no-transition-once-per-region-with-its-active-state */
 __CPROVER_requires(self == fsm)
@@ -174,7 +174,7 @@ __CPROVER_requires(__CPROVER_is_fresh(self, sizeof(*self)) && 1 <= nr_regions &&
 __CPROVER_requires(g_region_next == 0 && g_acc == 0 && !g_internal_tried && g_ntaken == 0 && g_nt_next == 0 && !g_exc && WF_STATES(self))
 __CPROVER_assigns(g_region_next, g_acc, g_ntaken, g_internal_tried, g_nt_next, g_exc, __CPROVER_object_whole(self->m_states))
 __CPROVER_ensures(!g_exc ==> g_region_next == nr_regions)                                                        /*@ob C06.every-region-was-offered-the-event */
-__CPROVER_ensures(!g_exc ==> (int)__CPROVER_return_value == g_acc)                                               /*@ob C06.result-is-the-or-of-the-regions */
-__CPROVER_ensures(!g_exc ==> (((g_acc & HANDLED_TRUE) != 0) == (g_ntaken > 0)))                                  /*@ob C06.handled-bit-iff-a-transition-was-taken */
-__CPROVER_ensures(!g_exc ==> (g_nt_next == ((g_acc == 0 && !g_is_completion_event && (!g_is_contained || is_direct_call)) ? nr_regions : 0)))   /*@ob C06.no-transition-exactly-when-nothing-reacted */
+__CPROVER_ensures(!g_exc ==> (int)__CPROVER_return_value == g_acc)                                               /*@ob C06,C07.result-is-the-or-of-the-regions */
+__CPROVER_ensures(!g_exc ==> (((g_acc & HANDLED_TRUE) != 0) == (g_ntaken > 0)))                                  /*@ob C06,C01.handled-bit-iff-a-transition-was-taken */
+__CPROVER_ensures(!g_exc ==> (g_nt_next == ((g_acc == 0 && !g_is_completion_event && (!g_is_contained || is_direct_call)) ? nr_regions : 0)))   /*@ob C06,C05,C10.no-transition-exactly-when-nothing-reacted */
 ;
